@@ -131,12 +131,20 @@ def explain(env, p, obs):
     return None
 
 
-def explain_scalar(env, p, table, obs_value, scale):
+def scalar(table, text, vp=None):
+    m = GS.MEANING[(table, text)]
+    if isinstance(m, tuple):
+        # a percentage of the normalised viewport diagonal (SVG 2 8.9)
+        return m[1] / 100.0 * math.sqrt((vp[0] ** 2 + vp[1] ** 2) / 2.0)
+    return m
+
+
+def explain_scalar(env, p, table, obs_value, scale, vp=None):
     for pr, kind, v in reversed(env.cands.get(p, [])[:-1]):
-        if abs(GS.MEANING[(table, v)] * scale - obs_value) <= 1e-6 * max(1.0, abs(obs_value)):
+        if abs(scalar(table, v, vp) * scale - obs_value) <= 1e-6 * max(1.0, abs(obs_value)):
             return kind
     pv = env.parent_v.get(p)
-    if pv is not None and env.src.get(p) not in ("inherited", "default") and abs(GS.MEANING[(table, pv)] * scale - obs_value) <= 1e-6 * max(1.0, abs(obs_value)):
+    if pv is not None and env.src.get(p) not in ("inherited", "default") and abs(scalar(table, pv, vp) * scale - obs_value) <= 1e-6 * max(1.0, abs(obs_value)):
         return "inherited-value"
     return None
 
@@ -198,7 +206,12 @@ def check_paint(S, ctx, inst, shape, reify, xml):
         scale = math.sqrt(abs(det_a))
     else:
         scale = math.sqrt(abs(m_det(inst["ctm"])))
-    want = paint["stroke-width"] * scale
+    percent = isinstance(paint["stroke-width"], tuple)
+    if percent:
+        ctx.note("stroke width in percent")
+        # (the computed value of a percentage stroke width stays a percentage, SVG 2 13.5.2: it is resolved against the viewport of the shape)
+    width = scalar("width", env.v["stroke-width"], inst["vp"])
+    want = width * scale
     # a shape that could not be reified keeps its matrix and its raw width: then the implicit width is the observable
     t = shape.transform
     near_identity = max(abs(t.a - 1), abs(t.b), abs(t.c), abs(t.d - 1)) <= 1e-9 and max(abs(t.e), abs(t.f)) <= 1e-9 * max(1.0, inst["terr"] + inst["amp"] * inst.get("opmag", 0.0))
@@ -213,19 +226,21 @@ def check_paint(S, ctx, inst, shape, reify, xml):
         return contested, False
     tol = 1e-9 * max(1.0, abs(want)) * max(1.0, inst["amp"] ** 2 / max(abs(m_det(inst["ctm"])), 1e-300)) + (4e-6 * abs(want) if inst.get("metric") else 0.0)
     if ctx.see(mon, abs(got - want) / tol) > 1:
-        alt = explain_scalar(env, "stroke-width", "width", got, scale)
+        alt = explain_scalar(env, "stroke-width", "width", got, scale, inst["vp"])
         if alt:
             key = "cascade/stroke-width/%s-loses-to-%s" % (env.src["stroke-width"], alt)
-        elif abs(got - paint["stroke-width"]) <= tol and scale != 1.0:
+        elif percent and abs(got - width * math.sqrt(2.0) * scale) <= tol * 2:
+            key = "stroke-width/percent-of-the-unnormalised-diagonal"
+        elif abs(got - width) <= tol and scale != 1.0:
             key = "stroke-width/not-scaled/%s" % ("non-scaling" if nss else ("reified" if reify else "implicit"))
-        elif nss and abs(got - paint["stroke-width"] * math.sqrt(abs(m_det(inst["ctm"])))) <= tol:
+        elif nss and abs(got - width * math.sqrt(abs(m_det(inst["ctm"])))) <= tol:
             key = "stroke-width/non-scaling-stroke-uses-the-full-transform"
-        elif not nss and abs(got - paint["stroke-width"] * math.sqrt(abs(inst["vpctm"][0]))) <= tol:
+        elif not nss and abs(got - width * math.sqrt(abs(inst["vpctm"][0]))) <= tol:
             key = "stroke-width/scaled-by-the-viewport-transform-only"
         else:
             key = "stroke-width/%s/unexplained" % ("non-scaling" if nss else "scaling")
         ctx.violation(key, "reify=%s: %s has stroke width %r, expected %r = %r x sqrt|det| %r (%s from %s); document %s" % (
-            reify, who, got, want, paint["stroke-width"], scale, "vector-effect non-scaling-stroke" if nss else "accumulated transform", env.src["stroke-width"], xml), monitor=mon)
+            reify, who, got, want, width, scale, "vector-effect non-scaling-stroke" if nss else "accumulated transform", env.src["stroke-width"], xml), monitor=mon)
         return contested, False
     return contested, True
 
